@@ -516,6 +516,8 @@ class SecretDocGen:
     def secret_node(self, anchor=None):
         rng = self.rng
         plain = rng.choice(PLAINTEXTS)
+        if plain.startswith("ENC[") and rng.random() < 0.7:
+            plain = "hunter2"
         text = self.cipher(plain)
         style = rng.choice(["", "", '"', "'", ">", ">", "|"])
         if style in (">",):
